@@ -185,7 +185,8 @@ def spec_codon():
         {"id": "mg94", "type": "MG94", "data_type": "codon", "alpha": P("mg_alpha", [1.0]),
          "beta": P("mg_beta", [0.5]), "kappa": P("mg_kappa", [2.0]),
          "frequencies": P("mg_freqs", [1.0 / 61] * 61, SIMPLEX)},
-        {"id": "site", "type": "ConstantSiteModel"},
+        # discretised rates WITHOUT an invariant class (the probabilities are then constant, the rates are not)
+        {"id": "site", "type": "WeibullSiteModel", "categories": 3, "shape": P("wshape_c", [0.7])},
         {"id": "like", "type": "TreeLikelihoodModel", "tree_model": "tree", "site_model": "site",
          "substitution_model": "mg94", "site_pattern": "patterns"},
         dist("prior_bl", "Exponential", "bl", {"rate": P("bl_rate", [10.0, 9.0, 11.0, 10.0, 12.0])}),
@@ -410,6 +411,9 @@ def obj_name(o, names):
     return names.get(id(o)) or f"<{type(o).__name__}@{id(o) & 0xffff:x}>"
 
 
+_SITE_ORDER = [0]
+
+
 class Tracer:
     """Read-tracing with sys.setprofile: which slot reads which slot.
 
@@ -530,7 +534,15 @@ def observations(o, table):
         elif f == "branch_lengths_need_update":
             out.append(("f:" + f, lambda: o.branch_lengths()))
         elif f == "needs_update" and isinstance(o, SiteModel):
-            out.append(("f:" + f, lambda: (o.rates(), o.probabilities())))
+            # both accessors share the one flag: they are read in alternating order (whichever comes first must
+            # refresh BOTH cached tensors, the other then finds the flag lowered)
+            def both(o=o):
+                _SITE_ORDER[0] += 1
+                if _SITE_ORDER[0] % 2:
+                    pr = o.probabilities()
+                    return (o.rates(), pr)
+                return (o.rates(), o.probabilities())
+            out.append(("f:" + f, both))
         else:
             raise ExtractError(f"{qn(o)}: no observation known for flag {f}")
     if isinstance(o, SiteModel) and not flags:
@@ -917,6 +929,9 @@ class Real:
         except Exception as e:
             return ("exc", type(e).__name__, str(e)[:200])
         vs = v if isinstance(v, (tuple, list)) else (v,)
+        if any(x is None for x in vs):
+            # an accessor that hands out nothing (a cache that was never filled): an observable outcome of its own
+            return ("exc", "NoneReturned", f"the accessor returned None ({[type(x).__name__ for x in vs]})")
         return ("val", [x.detach().clone() if hasattr(x, "detach") else self.torch.as_tensor(x) for x in vs])
 
     # ---- values -----------------------------------------------------------------------------
